@@ -298,6 +298,7 @@ type Layout struct {
 	VaryCase bool
 	SizeWs   bool // white space inside size declarations
 	SizeZero bool // leading zeros on size bounds
+	EOLAfter int  // > 0: the line ends in front of this token index (blanks and a comment may come first)
 }
 
 var commentTexts = []string{"", " note", " voilà", " \xa0", " x\x85", " tab\there", " // nested", ` "quote`, " <L x>", " S1F1 W .", " trailing   ", " \t ", "日本語", " \xff\xfe", " 100% \v", " a\fb", " é", " …", " Ω  "}
@@ -366,6 +367,21 @@ func (l *Layout) render(toks []STok) (string, [][2]int) {
 		}
 		if i == 0 {
 			write(l.gap(true))
+		} else if l.EOLAfter > 0 && i == l.EOLAfter {
+			// blanks, possibly a comment without a double quote, then the line end
+			write([]string{"", " ", "\t", "  "}[l.R.Intn(4)])
+			if l.Comments && l.R.Intn(2) == 0 {
+				ct := commentTexts[l.R.Intn(len(commentTexts))]
+				for strings.Contains(ct, `"`) {
+					ct = commentTexts[l.R.Intn(len(commentTexts))]
+				}
+				write(" //" + ct)
+			}
+			if l.CRLF {
+				write("\r\n")
+			} else {
+				write("\n")
+			}
 		} else if !touch {
 			write(l.gap(false))
 		}
@@ -394,7 +410,8 @@ func randomLayout(r *rand.Rand) *Layout {
 }
 
 // expressible message descriptions: names the header lexer reads as one name token
-var smlNames = []string{"", "", "AreYouThere", "OnLineData", "ERN", "名前", "a.b", "x/y", "Lot#1", "né", "n_1", "q-1", "Z[0]", "a\"b", "\xff\xfe", "it's"}
+var smlNames = []string{"", "", "AreYouThere", "OnLineData", "ERN", "名前", "a.b", "x/y", "Lot#1", "né", "n_1", "q-1", "Z[0]", "a\"b", "\xff\xfe", "it's",
+	"Are\x00You", "esc\x1bname", "del\x7f", "c1\u009f", "zw\u200bsp", "bom\ufeff", "\x01\x02"}
 
 func genSMLMsg(r *rand.Rand, item *Node) *MsgDesc {
 	m := genMsgDesc(r, item, 0)
